@@ -20,6 +20,8 @@ type SysOpts struct {
 	Guarded      bool `json:"guarded"`
 	MaxConsumers int  `json:"max_consumers"`
 	MaxInc       int  `json:"max_incarnations"`
+	// Prefix is a history replayed before exploration starts (non-initial start states).
+	Prefix []string `json:"prefix"`
 }
 
 // Sys implements seqx.Sys over one X.
@@ -53,6 +55,14 @@ func NewSys(o SysOpts, check func(s *Sys) []seqx.Viol) *Sys {
 	if o.StartPub {
 		if ok, err := s.X.PubArrive(); err != nil || !ok {
 			s.infra = fmt.Errorf("initial publisher not accepted: %v", err)
+		}
+	}
+	for _, ev := range o.Prefix {
+		if s.infra != nil {
+			break
+		}
+		if err := s.Apply(ev); err != nil {
+			s.infra = fmt.Errorf("prefix event %s: %v", ev, err)
 		}
 	}
 	return s
